@@ -19,7 +19,9 @@
 \* `ev` records, for the phase just executed, the array before, the inputs and the value the function must return:
 \* checks/c18.py replays every dumped / simulated state into the real functions (harness/sleep_drv.cc).
 EXTENDS SleepCore, TLC
-CONSTANTS Eqs,        \* sequence of equalities <<x, y>>, x, y \in Trees \cup {World, Mocap}
+CONSTANTS Eqs,        \* sequence of equalities <<x, y, kind>>, x, y \in Trees \cup {World, Mocap, Carried..}, kind \in EqKinds
+                      \* (weld / connect, defined on bodies / on sites); each may be active from the start or switched
+                      \* on and off at run time (eqact)
           Ground,     \* trees that touch the static world whenever they are awake (single-tree constraint)
           Never,      \* trees whose sleep policy is "never"
           NoIslands,  \* TRUE: mjDSBL_ISLAND (constraints without island structure: nothing may sleep)
@@ -112,7 +114,7 @@ ZeroVelOK(after, nzv) == \A t \in Trees : after[t] >= 0 => t \notin nzv
 \* the step
 \* ---------------------------------------------------------------------------------------------------------------
 Init == /\ ta \in [Trees -> InitVals] /\ geo = {}
-        /\ eqact = [k \in 1..Len(Eqs) |-> FALSE]
+        /\ eqact \in [1..Len(Eqs) -> BOOLEAN]
         /\ user = NoUser /\ frc = NoTree /\ mtouch = NoTouch /\ phase = "env" /\ ev = [ph |-> "init"]
 
 Env(u, tg) ==
@@ -199,6 +201,7 @@ Spec == Init /\ [][Next]_vars
 \* properties
 \* ---------------------------------------------------------------------------------------------------------------
 TypeOK == /\ \A t \in Trees : ta[t] \in KAwake..(NT - 1)
+          /\ \A k \in 1..Len(Eqs) : Eqs[k][3] \in EqKinds
           /\ geo \subseteq Pairs /\ phase \in {"env", "wake", "collide", "weq", "sleep"}
 \* the array always encodes closed cycles of sleeping trees (at every phase boundary)
 CyclesClosed == Closed(ta)
@@ -233,7 +236,8 @@ WakeOnTouch ==
         /\ (IsTree(x) /\ IsTree(y)) => (ta'[x] < 0 /\ ta'[y] < 0)
         /\ (IsTree(x) /\ BodyClass(y) = "mocap-carried") => ta'[x] < 0
         /\ (IsTree(y) /\ BodyClass(x) = "mocap-carried") => ta'[y] < 0]_vars
-\* ... or is constrained to an awake tree (or to the mocap body, or to another sleeping island) by an active equality
+\* ... or is constrained to an awake tree (or to the mocap body, or to another sleeping island) by an active equality,
+\* whatever its kind (weld / connect, between bodies / between sites) and whenever it was activated
 WakeOnEquality ==
   [][ev'.ph = "weq" => \A k \in 1..Len(Eqs) : eqact[k] =>
         LET x == Eqs[k][1]  y == Eqs[k][2] IN
@@ -250,13 +254,16 @@ TouchingSleepersShareCycle ==
 \* sleeping trees are frozen: qpos untouched and qvel zero (mj_advance integrates awake trees only)
 Frozen  == [][ev'.ph = "sleep" => FrozenOK(ta, ta', {}, ev'.moved) /\ ZeroVelOK(ta', ev'.nzv)]_vars
 ViewNoEv == <<ta, geo, eqact, user, frc, mtouch, phase>>
+\* same, but a state reached by a phase that woke / slept trees is kept apart from the same state reached by a no-op:
+\* the dumped representatives then include the transitions that change the array
+ViewRet  == <<ta, geo, eqact, user, frc, mtouch, phase, IF ev.ph \in {"wake", "collide", "weq", "sleep"} THEN ev.ret ELSE 0>>
 \* ---- constants for the configurations
 NoEqs    == << >>
-MC_Eqs1  == << <<0, 1>> >>
-MC_Eqs2  == << <<0, 1>>, <<1, 2>> >>
-MC_Eqs3  == << <<1, 2>>, <<0, 1>>, <<2, Mocap>> >>
-MC_EqsW  == << <<0, 1>>, <<1, World>> >>
-Sim_Eqs  == << <<1, 2>>, <<0, 1>>, <<3, Mocap>>, <<2, World>>, <<4, Carried2>> >>
+MC_Eqs1  == << <<0, 1, ConnectSite>> >>
+MC_Eqs2  == << <<0, 1, WeldSite>>, <<1, 2, ConnectBody>> >>
+MC_Eqs3  == << <<1, 2, WeldBody>>, <<0, 1, ConnectSite>>, <<2, Mocap, WeldSite>> >>
+MC_EqsW  == << <<0, 1, ConnectSite>>, <<1, World, WeldBody>> >>
+Sim_Eqs  == << <<1, 2, WeldSite>>, <<0, 1, ConnectBody>>, <<3, Mocap, ConnectSite>>, <<2, World, WeldSite>>, <<4, Carried2, WeldBody>> >>
 AllKinds == {"qpos", "qvel", "force", "mocap", "carried"}
 KindsC   == {"qpos", "qvel", "force", "carried"}
 KindsM   == {"qpos", "qvel", "force", "mocap"}
